@@ -40,11 +40,12 @@ func init() {
 				c04r2(c)
 				c02r2(c)
 				setupSessionFromPin(c)
+				pinFormatted(c)
 			}},
 			{ID: "C02-R3", Title: "SaveEntity is dominated by AEAD-open-ok under the session key and signature-ok", Decides: "only a correctly authenticated and signed key-exchange stores", Floor: 4, Run: c02r3},
 			{ID: "C02-R4", Title: "stored name and key are the signed name and key", Decides: "exactly that name and key", Floor: 3, Run: func(c *core.Ctx) { c02r4(c); entityCtorPasses(c) }},
 			{ID: "C02-R5", Title: "one controller per connection", Decides: "on that same connection and exchange", Floor: 2, Run: c02r5},
-			{ID: "C02-R6", Title: "primitive wrappers are stateless; the endpoint keeps no cross-connection state", Decides: "a signature / proof verifies only for this exchange, on this connection", Floor: 4, Run: func(c *core.Ctx) { c02r6(c); passThrough(c, "C02") }},
+			{ID: "C02-R6", Title: "primitive wrappers are stateless; the endpoint keeps no cross-connection state", Decides: "a signature / proof verifies only for this exchange, on this connection", Floor: 4, Run: func(c *core.Ctx) { c02r6(c); passThrough(c, "C02"); returnsUndecorated(c, "C02") }},
 		},
 	})
 }
